@@ -201,5 +201,42 @@ func init() {
 			first = 0
 		}
 		add("adapterOnPushReconnectFirst", first, true)
+		// Nothing may stand between the arrival of a close notification and the switch to a fresh
+		// TarsClient: count the return statements that come before the assignment
+		// `c.tarsClient = transport.NewTarsClient(…)` and the test-and-set gates (atomic
+		// CompareAndSwap, mutex TryLock) anywhere in onPush. Both are 0 in the baseline.
+		switchPos := token.NoPos
+		ast.Inspect(fd.Body, func(n ast.Node) bool {
+			as, ok := n.(*ast.AssignStmt)
+			if ok && switchPos == token.NoPos && len(as.Rhs) == 1 && strings.Contains(exprStr(f.fset, as.Rhs[0]), "NewTarsClient") {
+				for _, l := range as.Lhs {
+					if strings.HasSuffix(exprStr(f.fset, l), ".tarsClient") {
+						switchPos = as.Pos()
+					}
+				}
+			}
+			return true
+		})
+		if switchPos == token.NoPos {
+			anchorLost("%s: onPush: no `c.tarsClient = transport.NewTarsClient(…)` found", rel)
+			return
+		}
+		returnsBefore, gates := 0, 0
+		ast.Inspect(fd.Body, func(n ast.Node) bool {
+			switch x := n.(type) {
+			case *ast.ReturnStmt:
+				if x.Pos() < switchPos {
+					returnsBefore++
+				}
+			case *ast.CallExpr:
+				fn := exprStr(f.fset, x.Fun)
+				if strings.Contains(fn, "CompareAndSwap") || strings.HasSuffix(fn, ".TryLock") || strings.HasSuffix(fn, ".Swap") {
+					gates++
+				}
+			}
+			return true
+		})
+		add("adapterOnPushReturnsBeforeSwitch", int64(returnsBefore), true)
+		add("adapterOnPushGates", int64(gates), true)
 	})
 }
